@@ -53,11 +53,17 @@ def run(ctx):
                     if rng.random() < pr:
                         fv |= getattr(Gm, nm)
                 how = rng.choice(['kw', 'inline']) if ex else 'none'
+                if how == 'inline' and rng.random() < 0.4 and not any(p_.startswith(('-', '!')) for p_ in pats):
+                    fv |= Gm.MINUSNEGATE | (Gm.EXTGLOB if rng.random() < 0.6 else 0)
+                elif rng.random() < 0.2:
+                    fv |= Gm.EXTGLOB
                 try:
                     if how == 'kw':
                         res = Gm.glob(pats, flags=fv, root_dir=T.root, exclude=ex)
                     elif how == 'inline':
-                        res = Gm.glob(pats + ['!' + e for e in ex], flags=fv | Gm.NEGATE, root_dir=T.root)
+                        # (the exclusion symbol is `-` under MINUSNEGATE, whatever else - EXTGLOB in particular - is set)
+                        sym_ = '-' if fv & Gm.MINUSNEGATE else '!'
+                        res = Gm.glob(pats + [sym_ + e for e in ex], flags=fv | Gm.NEGATE, root_dir=T.root)
                     else:
                         res = Gm.glob(pats, flags=fv, root_dir=T.root)
                 except Exception as e:
